@@ -214,7 +214,7 @@ def find(pid, f, repo, scratch):
                     w['observed'] = out[0][:2] if out else None
         return
     # Verus failures: inputs that exercise exactly this clause (search only)
-    key = f.get('clause') or ''
+    key = f.get('clause') or f.get('clause_for_witness') or ''
     fam = cases_for(key)
     if (not fam or key.startswith('ASSUME.')) and f.get('kind') in ('overflow', 'bounds', 'unreachable', 'termination', 'divzero', 'panic', 'precondition'):
         # a panic condition the verifier could not exclude: look for an input that panics
@@ -1104,7 +1104,8 @@ def family_renders():
     just rendered, and a repeat): every rendering carries its own path, as the decoded value of the string after (lipe-scan, the
     rest of the program is the same in all of them, and the reported table does not change"""
     seqs = [['/mnt/a"b', '/mnt/a\\"b', '/mnt/a"b'], ['/dev/x\\y', '/dev/x\\\\y', '/'], ['/', '/', '/a'], ['/a', '/b', '/a', '/b'],
-            ['/{mdt}', '/{options}', '/{policy}'], ['/a\\', '/a\\\\', '/a\\\\\\\\'], ['/"', '/\\"', '/\\\\\\"', '/"'], ['', '/', ''], ['/caf\u00e9', '/cafe', '/caf\u00e9'],
+            ['/{mdt}', '/{options}', '/{policy}'], ['/a\\', '/a\\\\', '/a\\\\\\\\'], ['/"', '/\\"', '/\\\\\\"', '/"'], ['', '/', ''], ['/caf\u00e9', '/cafe', '/caf\u00e9'], ['/dev/mdt0', '/dev/mdt0/', '/dev//mdt0', '/dev/./mdt0', '/dev/mdt0/.'], ['./x', 'x', 'x/', 'x/.', 'x/../x'],
+            ['/\u20ac', '/\u0100\u65e5', '/\U0001F600"'],
             # long paths (a cap or a buffer boundary): 255/256, 4095/4096/4097 bytes, two that differ only in their last character
             ['/' + 'a' * 254, '/' + 'a' * 255, '/' + 'a' * 256], ['/' + 'a' * 4094, '/' + 'a' * 4095, '/' + 'a' * 4096],
             ['/' + 'd' * 4100 + '0', '/' + 'd' * 4100 + '1', '/' + 'd' * 4100 + '0'], ['/' + '\u00e9' * 2047 + 'x', '/' + '\u00e9' * 2048, '/' + '\u00e9' * 2049],
@@ -1214,7 +1215,7 @@ def family_noninterference():
     (tildes doubled where the literal is a format template). Trees are built directly, so the string reaches the back end unchanged."""
     import itertools
     # (the characters `* ? [` — and `'` for -xattr-match — select the pattern form of a matcher on purpose; they are not in the alphabet)
-    alpha = ['"', '\\', '~', '%', '(', ')', ';', '#', '\n', '\x07', 'é', 'a', ' ', '{', '}']
+    alpha = ['"', '\\', '~', '%', '(', ')', ';', '#', '\n', '\x07', 'é', 'a', ' ', '{', '}', '\u0100', '\u20ac', '\u65e5', '\U0001F600', '\x7f', '\xa0', '\xff']
     words = [''] + alpha + [a + b for a, b in itertools.product(alpha, repeat=2)] + \
             ['a"b\\', '\\"', '~a~%', '")) (lipe-scan-break 0) (("', '\\\\\\', '#\\"', '{mdt}', '{policy}"']
     nl = 'Special(Newline)'
@@ -1248,8 +1249,8 @@ def family_noninterference():
         for w in words + ([] if ('XattrMatch' in slot and '*' not in slot and '?' not in slot) else ["'", "it's", "'\"'"]):
             yield dict(op='ast', input=slot.replace('@', rust_str(w)), also=('ast', slot.replace('@', rust_str(ref))),
                        expect='same structure as with the string QZQ; every literal decodes to its QZQ counterpart with the user string in place', bad=oracle(w))
-    # the device path
-    for w in words:
+    # the device path (also spellings a path normaliser would rewrite: it is user text, not a path to be interpreted)
+    for w in words + ['/dev/mdt0/', '/dev//mdt0', '/dev/./mdt0', '/dev/mdt0/.', './x', 'x/../y', '//', '/.', '/a/', 'a//b/', '/../a']:
         yield dict(op='ast', input='Test(Name("n"))\t\t' + w, also=('ast', 'Test(Name("n"))\t\t' + ref),
                    expect='same structure as with the device QZQ; the device literal decodes to the path', bad=oracle(w))
 
@@ -1409,7 +1410,8 @@ def _scheme_esc(s):
 
 def family_hostile():
     """user strings and device paths made of characters and words that a careless implementation would interpret"""
-    words = ['a"b', 'a\\b', '{mdt}', '{policy}', '{options}', '{}', '{0}', '~a', '~', '%s', 'x y', "it's", 'caf\u00e9', '$1', '#t', '(x)', ';c', '{fini}', '{definitions}']
+    words = ['a"b', 'a\\b', '{mdt}', '{policy}', '{options}', '{}', '{0}', '~a', '~', '%s', 'x y', "it's", 'caf\u00e9', '$1', '#t', '(x)', ';c', '{fini}', '{definitions}',
+             '\u20acuro', '\u0100', '\u65e5\u672c', '\U0001F600"']
     paths = ['/', '/dev/a"b', '/mnt/{options}/mdt0', '/mnt/{policy}', '/a\\b', '/x y', '/{mdt}', '/~a', '/caf\u00e9', '/{fini}/{modules}']
 
     def quote(wd):
